@@ -15,7 +15,10 @@
      keys_unique         node keys are the keys of a Go map
      well_nested         sub graph references point forward in the forest (finite nesting)
      uniform             all values of one Option have one Go type (guaranteed by the typed
-                         constructors; WithLambdaOption(...any) can violate it)
+                         constructors; WithLambdaOption(...any) can violate it); a hypothesis of
+                         bad_designation_errors only — call_fails_iff does without it
+     fired_mult / spec_fired_count   closed form of how often an option's handlers / a handler
+                         sit in the callback manager of the node at a path
      handler_addressed   the option is undesignated, or one of its designated paths is the node
                          itself or a graph node above it
      resume_call F opts c  (Model/OptionsResume.v) one call of a session on a checkpoint id: c is
@@ -34,7 +37,7 @@
 From Coq Require Import Permutation.
 From Eino Require Import Base.Util Model.Options Model.OptionsSpec Model.OptionsResume Model.OptionsAll
   Proofs.Options Proofs.OptionsResume Proofs.OptionsFired Proofs.OptionsPerm Proofs.OptionsClauses
-  Proofs.OptionsAll Proofs.OptionsFails.
+  Proofs.OptionsAll Proofs.OptionsFails Proofs.OptionsMult.
 From Eino Require Base.GoSlice Proofs.CallbacksSlice Model.OptionsSlice Proofs.OptionsSlice Proofs.OptionsSliceScript.
 Local Open Scope N_scope.
 
@@ -162,6 +165,21 @@ Theorem callbacks_exact :
     hs = spec_fired (graph_handlers opts) opts (r_path r).
 Proof. exact run_call_fired_exact. Qed.
 Print Assumptions callbacks_exact.
+
+(* ... and as a multiset it has a closed form over the call's options (Model/OptionsSpec.v
+   fired_mult): handler h is in the manager of the node at path p
+     once per undesignated option that carries it,
+     once per option that carries it and designates the first node of p at the top level (one
+       Option is taken once per node there, however many of its paths name the node),
+     once per designated path of length >= 2 that is p or a prefix of p (every such path travels
+       down as an Option of its own)
+   — never because of a path that leads elsewhere. *)
+Theorem callbacks_multiplicity :
+  forall F opts rs r hs h,
+    keys_unique F -> run_call F opts = Ok rs -> In r rs -> r_fired r = Some hs ->
+    cnt h hs = spec_fired_count opts (r_path r) h.
+Proof. exact run_call_fired_count. Qed.
+Print Assumptions callbacks_multiplicity.
 
 (* ---- resume_delivers_same / no_leak_between_calls ----------------------------------- *)
 (* A call that re-enters the run from a checkpoint — whatever the checkpoint holds, at every
@@ -481,6 +499,24 @@ Example fired_example :
        mkRep [2; 3] (Some []) (Some [7; 9; 8]);
        mkRep [3] (Some []) None ].
 Proof. vm_compute. reflexivity. Qed.
+
+(* multiplicities: handler 13 designated to [2] and to [2;1] is twice in the manager of 2/1 (once
+   inherited from graph node 2, once designated) and once in that of 2/3; the same top-level key
+   twice counts once, the same nested path twice counts twice *)
+Example multiplicity_example :
+  spec_fired_count [mkOpt [] [13] [[2; 1]; [2]]] [2; 1] 13 = 2%nat /\
+  spec_fired_count [mkOpt [] [13] [[2; 1]; [2]]] [2; 3] 13 = 1%nat /\
+  spec_fired_count [mkOpt [] [13] [[1]; [1]]] [1] 13 = 1%nat /\
+  spec_fired_count [mkOpt [] [13] [[2; 1]; [2; 1]]] [2; 1] 13 = 2%nat /\
+  spec_fired_count [mkOpt [] [13] [[2; 1]]] [1] 13 = 0%nat /\
+  run_call exF [mkOpt [] [13] [[2; 1]; [2]]] =
+  Ok [ mkRep [] None (Some []);
+       mkRep [1] (Some []) (Some []);
+       mkRep [2] None (Some [13]);
+       mkRep [2; 1] (Some []) (Some [13; 13]);
+       mkRep [2; 3] (Some []) (Some [13]);
+       mkRep [3] (Some []) None ].
+Proof. vm_compute. repeat split; reflexivity. Qed.
 
 (* the answer for all nodes of exF: node 2/4 and what lies below it do not execute in exF (the
    branch skips them) but have their entries; the reports of run_example are the selected ones *)
